@@ -156,6 +156,9 @@ func hasTwoRecordings(d *PDrv) bool { return len(d.recordings('m')) > 1 }
 
 var devRecorder = []string{"B", "R", "1d", "1s", "1c5"}
 
+// "<k>fmx": event k during which the motion sink's StopRecording returns an error
+var devStopFails = []string{"0fmx", "1fmx", "Bfmx", "Rfmx"}
+
 // jobsFor builds jobs sharded by configuration x first two tokens.
 func jobsFor(cfgs []PCfg, base, dev []string, L, D int) []procJob {
 	var jobs []procJob
@@ -178,7 +181,7 @@ func c0103Run(prop string, oracles []procOracle, nontriv func(*PDrv) bool) func(
 			fps = []int{1, 2, 3}
 			L, Ld, D = 15, 12, 2
 		}
-		r.Rule = fmt.Sprintf("every event string over {1=motion frame, 0=still frame} of length %d (both entry points ProcessFrame and Process), and every string of length %d with at most %d deviations from {B=bad frame, R=camera reset, 1d=disk check refused, 1s=file creation refused, 1c5=window closed}, plus an explicit-state search to a FIXPOINT of canonical processor states over the same alphabet (<=2 deviations per history) - covering streams of any length - for every configuration of the lattice fps x preview-secs{0,1,2} x trigger-frames{0..3} x min-secs{0,1,2} x max-secs{min..min+2} with ring capacity >= 1; motion bits are produced through the real detector (beacon pixel); the oracles read motion from the observed MotionDetected callbacks, which C03 and C04 tie to the generated frame content. Non-trivial = execution with at least one recording (two for C01).", L, Ld, D)
+		r.Rule = fmt.Sprintf("every event string over {1=motion frame, 0=still frame} of length %d (both entry points ProcessFrame and Process), and every string of length %d with at most %d deviations from {B=bad frame, R=camera reset, 1d=disk check refused, 1s=file creation refused, 1c5=window closed}, and every string of that length with one event during which the motion sink's StopRecording reports an error (0fmx, 1fmx, Bfmx, Rfmx), plus an explicit-state search to a FIXPOINT of canonical processor states over the same alphabet (<=2 deviations per history) - covering streams of any length - for every configuration of the lattice fps x preview-secs{0,1,2} x trigger-frames{0..3} x min-secs{0,1,2} x max-secs{min..min+2} with ring capacity >= 1; motion bits are produced through the real detector (beacon pixel); the oracles read motion from the observed MotionDetected callbacks, which C03 and C04 tie to the generated frame content. Non-trivial = execution with at least one recording (two for C01).", L, Ld, D)
 		r.Bounds["fps"] = fps
 		r.Bounds["depth_plain"] = L
 		r.Bounds["depth_with_deviations"] = Ld
@@ -187,6 +190,10 @@ func c0103Run(prop string, oracles []procOracle, nontriv func(*PDrv) bool) func(
 		var jobs []procJob
 		jobs = append(jobs, jobsFor(procLattice(fps, "frame", ""), []string{"1", "0"}, nil, L, 0)...)
 		jobs = append(jobs, jobsFor(procLattice(fps, "raw", "day"), []string{"1", "0"}, devRecorder, Ld, D)...)
+		// a motion-sink StopRecording that reports an error (on a still, motion or bad frame, or on a reset) must not
+		// change what the next recording contains: the unchanged code closes, marks the ring and zeroes its counters
+		// regardless of the error
+		jobs = append(jobs, jobsFor(procLattice(fps, "raw", "day"), []string{"1", "0"}, devStopFails, Ld, 1)...)
 		if !r.Thorough() {
 			// the quick lattice is fps 1; a few fps 2/3 configurations keep "seconds x fps" arithmetic observable
 			var extra []PCfg
@@ -324,7 +331,7 @@ func c03Run(r *ev.Run) {
 		Lmax = 19
 	}
 	cfgs := c03Lattice(r.Thorough())
-	r.Rule = fmt.Sprintf("every motion bit-string (events {1=motion frame, 0=still frame}, real detector) of length min(%d, cap+2*maxF+3) for every configuration of the C03 lattice (fps 1..3, min-secs 0..4(5), max-secs up to min+4(5), preview-secs {0,1}, trigger-frames {0,1,2}); plus the general recorder lattice with <=1 deviation (bad frame, reset, refused starts) to depth 10(12). and an explicit-state search to a FIXPOINT over {1,0} for every configuration of the C03 lattice (motion patterns of any length, incl. configurations whose two-recording horizon exceeds the tree depth). Oracle: per recording, counted from the trigger frame, stop exactly at the first offset p >= min(q+minF-1, maxF) with q the latest motion offset. Non-trivial = execution with at least one recording.", Lmax)
+	r.Rule = fmt.Sprintf("every motion bit-string (events {1=motion frame, 0=still frame}, real detector) of length min(%d, cap+2*maxF+3) for every configuration of the C03 lattice (fps 1..3, min-secs 0..4(5), max-secs up to min+4(5), preview-secs {0,1}, trigger-frames {0,1,2}); plus the general recorder lattice with <=1 deviation (bad frame, reset, refused starts, a motion-sink StopRecording that returns an error on a still/motion/bad frame or reset) to depth 10(12), plus the C03 lattice itself with <=1 failing stop (on a still, motion or bad frame) to depth min(%d, cap+2*maxF+3); and an explicit-state search to a FIXPOINT over {1,0} for every configuration of the C03 lattice (motion patterns of any length, incl. configurations whose two-recording horizon exceeds the tree depth). Oracle: per recording, counted from the trigger frame, stop exactly at the first offset p >= min(q+minF-1, maxF) with q the latest motion offset. Non-trivial = execution with at least one recording.", Lmax, Lmax-3)
 	r.Bounds["depth_cap"] = Lmax
 	r.Bounds["c03_lattice_configurations"] = len(cfgs)
 	r.Assumptions = []string{"motion per frame is read from the observed MotionDetected callbacks; C03 and C04 additionally require those callbacks to agree with the generated frame content (beacon pixel toggled or not)", "configurations whose cap+2*maxF+3 exceeds the depth cap are covered to the cap only (reported per run in depth_limited_configurations)"}
@@ -347,7 +354,15 @@ func c03Run(r *ev.Run) {
 	}
 	// (storage write failures are deliberately NOT deviations here: C03 does not quantify over faults, and the
 	// unchanged code itself ends a recording after one frame when a pre-trigger write fails - see DESIGN.md A.4)
-	jobs = append(jobs, jobsFor(procLattice(fps, "raw", "day"), []string{"1", "0"}, devRecorder, Ld, 1)...)
+	// A failing StopRecording IS a deviation here (round-8 seed): the unchanged code closes the recording and
+	// zeroes its counters whether or not the sink's stop reports an error, so every later recording must still
+	// have the stated length. "<k>fmx" = event k during which the motion sink's StopRecording returns an error.
+	devStop := append(append([]string{}, devRecorder...), devStopFails...)
+	jobs = append(jobs, jobsFor(procLattice(fps, "raw", "day"), []string{"1", "0"}, devStop, Ld, 1)...)
+	for _, c := range cfgs {
+		c.Via = "raw"
+		jobs = append(jobs, jobsFor([]PCfg{c}, []string{"1", "0"}, []string{"0fmx", "1fmx", "Bfmx"}, imin(Lmax-3, imax(c.Cap()+2*c.MaxF()+3, 8)), 1)...)
+	}
 	capStates := 60000
 	if r.Thorough() {
 		capStates = 400000
